@@ -365,6 +365,15 @@ class Check:
         self.pid, self.tier, self.level = pid, tier, level
         self.seed = seed_from_env()
         self.t0 = time.time()
+        # stale replay files of earlier runs of this check would only confuse
+        rdir = os.path.join(VERIF, "replays")
+        if os.path.isdir(rdir):
+            for f in os.listdir(rdir):
+                if f.startswith(pid + "-"):
+                    try:
+                        os.unlink(os.path.join(rdir, f))
+                    except OSError:
+                        pass
         self.obligations = []     # (name, ok, detail)
         self.evaluations = 0
         self.distinct = set()
